@@ -251,6 +251,10 @@ def judge(V, case, trace, info):
     # 3. bounded termination of every call (open at the failure or issued afterwards)
     for k, c in info["calls"].items():
         limit = B["cmd"] + B["ash"] + (B["reset"] if k in ("reset", "startup_reset", "connect") else 0.0)
+        if k in ("A", "B", "C") and not info["registered_at_failure"]:
+            # nobody was told (no application attached at the failure), EZSP keeps running, and the three
+            # concurrent calls take their turns: each may wait for the ones ahead of it to time out
+            limit += 2 * B["cmd"]
         if c["end"] is None:
             if not info["hang"]:
                 bad.append(("C10/termination/call-never-ended", f"{k} (phase {c['phase']}) never returned or raised"))
@@ -333,7 +337,7 @@ def kinds_for(tier):
 
 def shards(tier, seed):
     out = []
-    vs = [4, 8, 13] if tier == "quick" else [4, 5, 8, 13, 14]
+    vs = [4, 8, 13, 14] if tier == "quick" else [4, 5, 7, 8, 9, 13, 14]
     for V in vs:
         for ki, (k, c) in enumerate(kinds_for(tier)):
             out.append({"version": V, "kind": k, "code": c, "tier": tier, "seed": seed})
@@ -355,12 +359,12 @@ def run_shard(desc) -> Acc:
         acc.hit(f)
     n = info0.get("n_frames", 0)
     cases = []
-    step = 1 if desc["tier"] == "thorough" or desc["kind"] in ("lost", "eof", "silent", "naksilent") else 2
+    step = 1
     for i in range(0, n + 1, step):
         for off in (0.0, 0.0015):
             cases.append({"kind": desc["kind"], "code": desc["code"], "at": i, "offset": off})
     if desc["kind"] in ("lost", "eof", "error", "rstack"):
-        for i in range(0, n + 1, 2 if desc["tier"] == "quick" else 1):
+        for i in range(0, n + 1):
             for k in (0, 1):
                 cases.append({"kind": desc["kind"], "code": desc["code"], "at": i, "align_timer": k})
     # the same crash points after a history in which the NCP had already failed once before any
